@@ -20,14 +20,14 @@ IsEv(e) == l <= Len(TraceLog) /\ Ev.e = e /\ l' = l + 1
 
 \* ---- segment table -------------------------------------------------------------------------------------------
 SegSet(ev) == {ev.segs[i] : i \in 1..Len(ev.segs)}
-SegsOK(ev, L) ==
+SegsOK(ev, L, runs) ==
     /\ Len(ev.segs) >= 1 /\ ev.segs[1][1] = 0
     /\ \A i \in 1..Len(ev.segs) : ev.segs[i][2] >= 1 /\ ev.segs[i][3] \in {1, 2}
     /\ \A i \in 1..(Len(ev.segs) - 1) : /\ ev.segs[i + 1][1] = ev.segs[i][1] + ev.segs[i][2]     \* tiling
                                         /\ ev.segs[i + 1][4] = ev.segs[i][2]                     \* back pointer
     /\ ev.segs[Len(ev.segs)][1] + ev.segs[Len(ev.segs)][2] = N
     /\ {[s |-> g[1], n |-> g[2]] : g \in {x \in SegSet(ev) : x[3] = 2}} = L                       \* full = live
-    /\ {[s |-> g[1], n |-> g[2]] : g \in {x \in SegSet(ev) : x[3] = 1}} = FreeRuns(L)             \* free = maximal runs
+    /\ {[s |-> g[1], n |-> g[2]] : g \in {x \in SegSet(ev) : x[3] = 1}} = runs             \* free = maximal runs
 
 \* ---- the tree (structure as in RBTrace.tla) ------------------------------------------------------------------
 NodeSet(ev) == {ev.nodes[i] : i \in 1..Len(ev.nodes)}
@@ -58,30 +58,34 @@ ValidTree(ev) ==
                         /\ (n.r # 0 => NodeOf(ev, n.r).c = 1)
     /\ BlackHeight(ev, ev.root, Fuel(ev)) # -1
 \* per size, the node's list holds exactly the free runs of that size (each once)
-TreeHoldsFreeRuns(ev, L) ==
-    /\ KeySet(ev) = {r.n : r \in FreeRuns(L)}
+TreeHoldsFreeRuns(ev, runs) ==
+    /\ KeySet(ev) = {r.n : r \in runs}
     /\ \A n \in NodeSet(ev) :
-          /\ {n.segs[i] : i \in 1..Len(n.segs)} = {r.s : r \in {q \in FreeRuns(L) : q.n = n.k}}
+          /\ {n.segs[i] : i \in 1..Len(n.segs)} = {r.s : r \in {q \in runs : q.n = n.k}}
           /\ Cardinality({n.segs[i] : i \in 1..Len(n.segs)}) = Len(n.segs)
 
 TInit == Init /\ l = 1
 TReset == IsEv("Reset") /\ live' = {} /\ UNCHANGED <<hnd, hist>>
 TMalloc == /\ IsEv("op") /\ Ev.op = "m"
-           /\ LET n == Units(Ev.b) IN
-              IF n = 0 \/ Fits(live, n) = {}
+           /\ LET n == Units(Ev.b)
+                  fits == {r \in FreeRuns(live) : r.n >= n}
+                  best == {r \in fits : \A q \in fits : r.n <= q.n}
+              IN
+              IF n = 0 \/ fits = {}
               THEN Ev.r = -1 /\ live' = live                                        \* fails only then ...
               ELSE /\ Ev.r >= 0 /\ Ev.r + n <= N                                    \* ... inside the zone, unit aligned
                    /\ \A u \in Ev.r..(Ev.r + n - 1) : FreeUnit(live, u)            \* overlaps no live block
-                   /\ \E r \in BestFits(live, n) : r.s = Ev.r                       \* beginning of a best-fitting run
+                   /\ \E r \in best : r.s = Ev.r                                   \* beginning of a best-fitting run
                    /\ live' = live \cup {[s |-> Ev.r, n |-> n]}
 TFree == /\ IsEv("op") /\ Ev.op = "f"
          /\ \E a \in live : a.s = Ev.r
          /\ live' = {a \in live : a.s # Ev.r}
 TOp == /\ (TMalloc \/ TFree)
        /\ Ev.inuse = InUse(live')
-       /\ SegsOK(Ev, live')
-       /\ ValidTree(Ev)
-       /\ TreeHoldsFreeRuns(Ev, live')
+       /\ LET runs == FreeRuns(live') IN
+            /\ SegsOK(Ev, live', runs)
+            /\ ValidTree(Ev)
+            /\ TreeHoldsFreeRuns(Ev, runs)
        /\ UNCHANGED <<hnd, hist>>
 TNext == TReset \/ TOp
 TSpec == TInit /\ [][TNext]_<<vars, l>>
